@@ -29,6 +29,7 @@ Atoms ==
     [name |-> "logtanh", dom |-> "R", ran |-> "R"],
     [name |-> "leakyrelu", dom |-> "R", ran |-> "R"],
     [name |-> "actnorm", dom |-> "R", ran |-> "R"],
+    [name |-> "batchnorm", dom |-> "R", ran |-> "R"],         \* evaluation mode: running statistics, the layer's own eps
     [name |-> "sigmoid", dom |-> "R", ran |-> "U"],
     [name |-> "cauchycdf", dom |-> "R", ran |-> "U"],
     [name |-> "spline_unit", dom |-> "U", ran |-> "U"],       \* bounded spline on [0, 1]
